@@ -416,6 +416,16 @@ def _run_shard(ctx):
             idx += 1
             if ctx.mine(idx):
                 check_text(ctx, "\n".join(seq) + "\n", "pool")
+    # lines in the syntax of other configuration languages (quoted
+    # names and values, assignment signs, ...): whatever is accepted must
+    # come back unchanged
+    idx = 0
+    for line in c03.FOREIGN:
+        for tmpl in ("%s\n", "<a>\n%s\n</a>\n", "%s\nk v\n</a>\n",
+                     "%s\n</a>\n", "<a b>\n%s\n%s\n</a>\nk %s\n"):
+            idx += 1
+            if ctx.mine(idx):
+                check_text(ctx, tmpl.replace("%s", line), "foreign")
     rng = ctx.rng("random")
     for i in range(RANDOM[ctx.tier] // ctx.nshards):
         check_text(ctx, c03.random_text(rng), "random")
